@@ -126,6 +126,8 @@ func Convert(graph gdbi.GraphInterface, dataType gdbi.DataType, markTypes map[st
 				// Need to rework this to do batched queries
 				ve = graph.GetVertex(ve.ID, true)
 			}
+		}
+		if ve != nil {
 			return &gripql.QueryResult{
 				Result: &gripql.QueryResult_Vertex{
 					Vertex: ve.ToVertex(),
@@ -141,6 +143,8 @@ func Convert(graph gdbi.GraphInterface, dataType gdbi.DataType, markTypes map[st
 			if !ee.Loaded {
 				ee = graph.GetEdge(ee.ID, true)
 			}
+		}
+		if ee != nil {
 			return &gripql.QueryResult{
 				Result: &gripql.QueryResult_Edge{
 					Edge: ee.ToEdge(),
@@ -162,10 +166,13 @@ func Convert(graph gdbi.GraphInterface, dataType gdbi.DataType, markTypes map[st
 		for k, v := range t.GetSelections() {
 			switch markTypes[k] {
 			case gdbi.VertexData:
+				// a mark that was never set, or whose element no longer exists, selects nothing
 				var ve *gripql.Vertex
-				if !v.Loaded {
-					ve = graph.GetVertex(v.ID, true).ToVertex()
-				} else {
+				if v != nil && !v.Loaded {
+					if lv := graph.GetVertex(v.ID, true); lv != nil {
+						ve = lv.ToVertex()
+					}
+				} else if v != nil {
 					ve = v.ToVertex()
 				}
 				selections[k] = &gripql.Selection{
@@ -175,9 +182,11 @@ func Convert(graph gdbi.GraphInterface, dataType gdbi.DataType, markTypes map[st
 				}
 			case gdbi.EdgeData:
 				var ee *gripql.Edge
-				if !v.Loaded {
-					ee = graph.GetEdge(ee.Gid, true).ToEdge()
-				} else {
+				if v != nil && !v.Loaded {
+					if le := graph.GetEdge(v.ID, true); le != nil {
+						ee = le.ToEdge()
+					}
+				} else if v != nil {
 					ee = v.ToEdge()
 				}
 				selections[k] = &gripql.Selection{
